@@ -55,7 +55,7 @@ def build_search(case, spec=None):
     from pydrobert.torch.modules import BeamSearch
 
     spec = spec or case["lm"]
-    lm = declm.HashLM(spec, cap=CAP if case["max_iters"] is None else None)
+    lm = declm.make_lm(spec, cap=CAP if case["max_iters"] is None else None)
     search = BeamSearch(lm, case["width"], eos=case["eos"], finish_all_paths=case["finish_all"],
                         pad_value=case.get("pad_value", -1))
     return lm, search
@@ -73,6 +73,8 @@ def run_search(case, conds, batch, search=None, spec=None):
     else:
         # the initial state is handed to the model as it is: any memory layout of it must do
         init = {"cond": dl.relayout(torch.tensor(conds, dtype=torch.long), case.get("cond_layout", "contiguous"))}
+        if "fusion" in (spec or case["lm"]):
+            init = declm.initial_state(spec or case["lm"], conds)
     y, lens, lp = search(init, batch, case["max_iters"])
     W = case["width"]
     if batch is None:
@@ -337,6 +339,38 @@ subcheck("C04", "zero_prob_lm", lambda tier: _search_cases(tier, "any", zero_pro
              "must still carry the chained log-probability of its path (so no zero-probability sequence may come back with a "
              "finite score); exhaustive regime compared on the positive-probability sequences",
          required_classes=["zero_probability_tokens", "width_beyond_exhaustive"])(_zero_prob_check)
+
+
+def _fusion_cases(tier):
+    base = _search_cases(tier, "any", batch_choices=(None, 1, 2, 3))
+
+    @st.composite
+    def _s(draw):
+        case = draw(base)
+        s1 = case["lm"]
+        V = s1["V"]
+        s2 = draw(declm.lm_specs(V, V, max_cond=len(s1["cond"]), min_cond=len(s1["cond"])))
+        beta = draw(st.sampled_from([0.5, 0.25, 1.0, -0.5, 2.0]))
+        case["lm"] = {"V": V, "M": max(s1["M"], s2["M"]), "cond": s1["cond"], "fusion": [s1, s2, beta]}
+        case["no_init"] = False
+        case.pop("cond_layout", None)
+        return case
+
+    return _s()
+
+
+def _fusion_check(case):
+    info = _validity_check(case)
+    s1, s2, beta = case["lm"]["fusion"]
+    info.classes.append("fusion_both_stateful" if s1["M"] >= 2 and s2["M"] >= 2 else "fusion_some_stateless")
+    return info
+
+
+subcheck("C04", "fusion_lm", _fusion_cases, 500, 10000,
+         doc="the library's own shallow-fusion language model (MixableShallowFusionLanguageModel over two HashLMs that keep "
+             "their state under the same key names, beta in {-0.5 .. 2}) searched by BeamSearch: same validity predicates, the "
+             "chain being log-softmax(first + beta * second) computed from scratch in pure Python",
+         required_classes=["fusion_both_stateful", "width_prunes"])(_fusion_check)
 
 
 def _match_lists(a, b, what, tol=1e-4):
@@ -777,3 +811,67 @@ def _advance_large_check(case):
     if sc:
         cl.add(sc[2:])
     return Info(nontrivial=("prunes" in cl or "fills_beyond_candidates" in cl) and case["Kp"] >= 2, classes=sorted(cl))
+
+
+# ------------------------------------------------------------------ searches without a step limit that end late
+
+
+def _unbounded_cases(tier):
+    quick = tier == "quick"
+
+    @st.composite
+    def _s(draw):
+        return {"late": draw(st.sampled_from([130, 1030, 1100, 1023, 1024, 1025] + ([] if quick else [2050, 4100]))),
+                "eos": draw(st.sampled_from([0, 1, -1])), "width": draw(st.sampled_from([1, 2, 3])),
+                "finish_all": draw(st.booleans()), "batch": draw(st.sampled_from([None, 1, 2])),
+                "lm_seed": draw(st.integers(0, 2 ** 31 - 1))}
+
+    return _s()
+
+
+@subcheck("C04", "search_unbounded", _unbounded_cases, 10, 100,
+          doc="BeamSearch with eos set and NO step limit over a model that counts its steps and all but forbids eos before step "
+              "130 .. 1100 (thorough .. 4100): the search must run until the stopping rule is met, however late; every finite slot "
+              "validated against the chain (cached pure-Python mirror)",
+          required_classes=["ended_after_1024_steps"])
+def _unbounded_check(case):
+    import torch
+    from pydrobert.torch.modules import BeamSearch
+
+    late, V = case["late"], 2
+    Tcap = late + 40
+    spec = declm.expand_spec({"V": V, "M": V + 2 + V * Tcap + 1, "mult": 1, "C": 1, "seed": case["lm_seed"]})
+    e = case["eos"] % V
+    inc = (1 - e) + 1
+    for s_ in range(spec["M"]):
+        spec["table"][s_][e] = -160 if s_ < V + 1 + late * inc else 160
+    pylm = declm.PyLM(spec)
+    lm = declm.HashLM(spec, cap=Tcap)
+    search = BeamSearch(lm, case["width"], eos=case["eos"], finish_all_paths=case["finish_all"])
+    N = case["batch"] or 1
+    y, lens, lp = search({"cond": torch.zeros(N, dtype=torch.long)}, case["batch"], None)
+    if case["batch"] is None:
+        y, lens, lp = y.unsqueeze(1), lens.unsqueeze(0), lp.unsqueeze(0)
+    cl = set()
+    for n in range(N):
+        prev = math.inf
+        finite = 0
+        for k in range(case["width"]):
+            sc, L = float(lp[n, k]), int(lens[n, k])
+            require(not math.isnan(sc) and sc <= prev, "scores not ordered best first / NaN", sc, prev)
+            prev = sc
+            if sc == NEG_INF:
+                continue
+            finite += 1
+            toks = [int(v) for v in y[:L, n, k]]
+            require(all(0 <= v < V for v in toks) and e not in toks[:-1], "path leaves the vocabulary or continues after eos", toks[-5:], e)
+            exp = pylm.chain(0, toks)
+            require(close(sc, exp, rel=max(1e-5, 4 * Tcap * 2.0 ** -24), abs_=2e-5 + L * 2.4e-7),
+                    "slot %d: reported log-probability != chain over %d tokens" % (k, L), sc, exp)
+            if k == 0 or case["finish_all"]:
+                require(L >= 1 and toks[-1] == e, "search without a step limit stopped although slot %d has not emitted eos" % k,
+                        {"len": L, "tail": toks[-3:]}, "ends in eos")
+            if toks and toks[-1] == e and L > 1024:
+                cl.add("ended_after_1024_steps")
+        require(finite >= 1, "no finite slot", None, None)
+    return Info(nontrivial=True, classes=sorted(cl) + ["width_%d" % case["width"]])
